@@ -1155,7 +1155,7 @@ class SimplicialComplex:
 
             # the boundary k-chains correspond to the zero columns
             # in the reduced matrix (the kernelDim rightmost entries)
-            chains = cls[-kernelDim:]
+            chains = cls[len(cls) - kernelDim:]
             boundaries[k] = chains
 
         return boundaries
